@@ -718,13 +718,13 @@ def run(ctx) -> None:
         ctx.analysed(f)
     # run-time: compare_values raises when not are_comparable(unit_a, unit_b)
     gcv = cfg_of(cv)
-    tests = [n for n in gcv.nodes if n.kind == "test" and re.fullmatch(r"not are_comparable\((\w+), (\w+)\)", norm(n.ast))]
+    tests = [n for n in gcv.nodes if n.kind == "test" and re.fullmatch(r"are_comparable\((\w+), (\w+)\)", norm(n.ast))]
     if not tests:
         raise AnchorError("compare_values: guard `not are_comparable(a, b)` not found")
-    mm = re.fullmatch(r"not are_comparable\((\w+), (\w+)\)", norm(tests[0].ast))
+    mm = re.fullmatch(r"are_comparable\((\w+), (\w+)\)", norm(tests[0].ast))
     cv_params = [p.arg for p in cv.params()]
     rt_a, rt_b = mm.group(1), mm.group(2)
-    t_succ = [d for d, l in gcv.succ[tests[0].id] if l == "T"]
+    t_succ = [d for d, l in gcv.succ[tests[0].id] if l == "F"]     # not comparable
     if not t_succ or not isinstance(gcv.nodes[t_succ[0]].ast, ast.Raise):
         raise AnchorError("compare_values: the incomparable branch does not raise")
     # run-time: which expressions reach unit_a / unit_b
@@ -947,12 +947,12 @@ def run(ctx) -> None:
                 for n in g.nodes:
                     if n.kind != "test":
                         continue
+                    # (tests are stored without leading negation: `if not self.tags.has(x)` is the test `self.tags.has(x)`
+                    # whose F edge is the undefined-name branch)
                     mt = None
-                    for x in ast.walk(n.ast):
-                        if isinstance(x, ast.UnaryOp) and isinstance(x.op, ast.Not) and isinstance(x.operand, ast.Call) \
-                                and norm(x.operand.func) == "self.tags.has" and x.operand.args:
-                            mt = x.operand.args[0]
-                    if mt is None or isinstance(n.ast, ast.BoolOp):
+                    if isinstance(n.ast, ast.Call) and norm(n.ast.func) == "self.tags.has" and n.ast.args:
+                        mt = n.ast.args[0]
+                    if mt is None:
                         continue
                     # expand analyzer-side name
                     parts = []
@@ -971,7 +971,7 @@ def run(ctx) -> None:
                     apath = ".".join([root2] + list(reversed(parts2)) + list(reversed(parts)))
                     if apath != path:
                         continue
-                    esc = g.search([(n.id, "T")], lambda z: z.kind == "exit", blocked=lambda z: z.kind == "stmt" and _is_error_item(z),
+                    esc = g.search([(n.id, "F")], lambda z: z.kind == "exit", blocked=lambda z: z.kind == "stmt" and _is_error_item(z),
                                    follow_exc=False)
                     found = (cf, n, esc)
                     ctx.analysed(cf)
